@@ -4,6 +4,7 @@ import Sylvia.Model.Casing
 import Sylvia.Driver.Util
 import Sylvia.Driver.Ops
 import Sylvia.Driver.MtOps
+import Sylvia.Model.WF
 /-! `svmodel`: one operation per input line, one canonical line of output per operation.
 The same operation files are fed to the Rust harnesses; the streams are diffed by ./check. -/
 open Driver
@@ -38,6 +39,7 @@ partial def loop (h : IO.FS.Stream) (out : IO.FS.Stream) (st : State) : IO Unit 
   let (op, rest) := splitOp l
   if op == "mtp" then out.putStrLn (Driver.opMtp st rest); loop h out st
   else if op == "mtr" then out.putStrLn (Driver.opMtr st rest); loop h out st
+  else if op == "wf" then out.putStrLn (toString (Sylvia.Gen.progWFb (Driver.progOf st))); loop h out st
   else if op == "mtlower" then out.putStrLn (Driver.opMtlower st rest); loop h out st
   else
   match step st l with
